@@ -113,11 +113,13 @@ package store
 //@   call datastore.Get
 //@     assert[C19:request-record-read-under-the-named-ids] gets == 0 && keyKind(arg1) == sprintf("%s%q", "req:", backendID) && keyName(arg1) == requestID
 //@     do gets = gets + 1
+//@   ensures[C19:request-record-or-error] r1 == nil ==> r0 != nil
 //@ func readStoredResponse props(C19,C07)
 //@   ghost gets int = 0
 //@   call datastore.Get
 //@     assert[C19:response-record-read-under-the-named-request-id] gets == 0 && keyKind(arg1) == "response" && keyName(arg1) == requestID
 //@     do gets = gets + 1
+//@   ensures[C19:response-record-or-error] r1 == nil ==> r0 != nil
 
 //@ func (*storedRequest).toRequest props(C19,C07)
 //@   requires r != nil
@@ -137,3 +139,39 @@ package store
 //@     do got = ret0
 //@     do reads = reads + 1
 //@   ensures[C19:response-rebuilt-from-its-record] r1 == nil ==> r0 != nil && r0.BackendID == r.BackendID && r0.RequestID == r.RequestID && r0.Contents == got && reads == 1
+
+// ---- the Store methods over these records (C19): plain delegations under the ids given ----
+//@ func (*persistentStore).WriteRequest props(C19,C07)
+//@   requires r != nil
+//@   ghost n int = 0
+//@   call newStoredRequest
+//@     assert[C19:request-written-as-given] n == 0 && arg1 == r
+//@     do n = n + 1
+//@   ensures[C19:request-written-once] n == 1
+//@ func (*persistentStore).ReadRequest props(C19,C07)
+//@   ghost rec *storedRequest = nil
+//@   ghost n int = 0
+//@   call readStoredRequest
+//@     assert[C19:request-looked-up-under-the-named-ids] n == 0 && arg1 == backendID && arg2 == requestID
+//@     do rec = ret0
+//@     do n = n + 1
+//@   call (*storedRequest).toRequest
+//@     assert[C19:request-rebuilt-from-the-record-read] n == 1 && arg0 == rec
+//@ func (*persistentStore).ReadResponse props(C19,C07)
+//@   ghost rec *storedResponse = nil
+//@   ghost n int = 0
+//@   call readStoredResponse
+//@     assert[C19:response-looked-up-under-the-named-ids] n == 0 && arg1 == backendID && arg2 == requestID
+//@     do rec = ret0
+//@     do n = n + 1
+//@   call (*storedResponse).toResponse
+//@     assert[C19:response-rebuilt-from-the-record-read] n == 1 && arg0 == rec
+//@ func (*persistentStore).WriteResponse props(C19,C07)
+//@   requires r != nil
+//@ func (*persistentStore).WriteResponse$2 props(C19,C07)
+//@   requires r != nil
+//@   ghost n int = 0
+//@   call newStoredResponse
+//@     assert[C19:response-written-as-given] n == 0 && arg1 == r
+//@     do n = n + 1
+//@   ensures[C19:response-written-once] n == 1
